@@ -16,12 +16,19 @@ def sh(cmd):
     return p.returncode, p.stdout
 
 
-assert sh("git -C /repo status --porcelain --untracked-files=no")[1].strip() == "", "/repo is dirty"
-rc, out = sh(f"git -C /repo apply {d}/patch.diff")
+import os
+via = os.environ.get("SEED_VIA_WORKTREE")      # see tools/seed.py
+target = "/repo"
+if via:
+    target = f"/tmp/seedwt_{os.getpid()}"
+    sh(f"git -C /repo worktree add -q --detach {target} HEAD")
+else:
+    assert sh("git -C /repo status --porcelain --untracked-files=no")[1].strip() == "", "/repo is dirty"
+rc, out = sh(f"git -C {target} apply {d}/patch.diff")
 assert rc == 0, out
 try:
     for pid in pids:
-        rc, out = sh(f"cd /verif && timeout 1500 ./check {pid} --tier quick 2>&1 | tail -8")
+        rc, out = sh(f"cd /verif && VERIF_REPO={target} timeout 1500 ./check {pid} --tier quick 2>&1 | tail -8")
         viol = [l for l in out.splitlines() if l.startswith("VIOLATION")]
         rec = {"detected": bool(viol), "lines": viol[:3], "summary": out.splitlines()[-1][-300:] if out.strip() else ""}
         if viol:
@@ -36,5 +43,8 @@ try:
         meta.setdefault("checks", {})[pid] = rec
         print(name, pid, "DETECTED" if viol else "missed", rec.get("signature", ""))
 finally:
-    sh("git -C /repo checkout -- .")
+    if via:
+        sh(f"git -C /repo worktree remove --force {target}")
+    else:
+        sh("git -C /repo checkout -- .")
 (d / "meta.json").write_text(json.dumps(meta, indent=1))
